@@ -112,6 +112,96 @@ theorem groupAverage_equivariant_concrete {ι κ : Type} (N : Fin d → Nat) (pa
     (fun g y _ => by funext i; exact actV_smul N g (parY i) r (y i))
     ops hops h hh hclosed f x
 
+/-! ### the general case: extents permuted by the operators (non-square images)
+
+The action of `g` on an image of extents `D` yields extents `D ∘ σ_g`; `actV N' g` is indexed by the
+extents `N'` of the RESULT.  The inner model may look at the extents of its input and is assumed to
+return images of the same extents (as every model of the library does on SAME/torus inputs). -/
+
+/-- on the box, `actV (D ∘ σ) g` is `tge` on an image of extents `D` (no hypothesis on `g`) -/
+theorem actV_eq_tge' (D : Fin d → Nat) (g : SP d) (p k : Nat) (v : V R d)
+    (y : Fin d → Int) (hy : InBox (fun i => D (g.σ i)) y) (n : List (Fin d)) :
+    (tge g.mat p ⟨D, k, v⟩).val y n = actV (fun i => D (g.σ i)) g p v y n := by
+  have hy' : InBox (tge g.mat p (⟨D, k, v⟩ : Img R d)).dims y := by
+    simp only [tge, rotDims_mat']; exact hy
+  rw [(tge_seq_pf g p (⟨D, k, v⟩ : Img R d)).2.2 y hy' n]
+  simp only [pf, actV]
+
+/-- fetching through `g` (result extents `M ∘ σ_g`) then through `h` (result extents `M`) -/
+theorem srcPix_mul' (g h : SP d) (M : Fin d → Nat) (y : Fin d → Int) :
+    h.srcPix M (g.srcPix (fun i => M (g.σ i)) y) = (g * h).srcPix (fun i => M (g.σ i)) y := by
+  funext j
+  simp only [SP.srcPix, mul_def, SP.mul_σ_symm, SP.mul_s, Equiv.apply_symm_apply]
+  rcases g.hs (g.σ.symm (h.σ.symm j)) with a | a <;> rcases h.hs (h.σ.symm j) with b | b <;>
+    simp [a, b]
+
+/-- **composition law with the extents threaded through**: `g·(h·v) = (g h)·v` -/
+theorem actV_comp (M : Fin d → Nat) (g h : SP d) (p : Nat) (v : V R d) :
+    actV (fun i => M (g.σ i)) g p (actV M h p v) = actV (fun i => M (g.σ i)) (g * h) p v := by
+  funext y n
+  simp only [actV, mul_def, SP.det_mul', SP.sgn_mul, SP.map_mul, mul_pow]
+  rw [show h.srcPix M (g.srcPix (fun i => M (g.σ i)) y) = (g.mul h).srcPix (fun i => M (g.σ i)) y
+    from srcPix_mul' g h M y]
+  push_cast
+  ring
+
+theorem actV_add' (N : Fin d → Nat) (g : SP d) (p : Nat) (u v : V R d) :
+    actV N g p (u + v) = actV N g p u + actV N g p v := actV_add N g p u v
+
+theorem actMI_comp {ι : Type} (M : Fin d → Nat) (par : ι → Nat) (g h : SP d) (x : ι → V R d) :
+    actMI (fun i => M (g.σ i)) par g (actMI M par h x) = actMI (fun i => M (g.σ i)) par (g * h) x := by
+  funext i; exact actV_comp M g h (par i) (x i)
+
+theorem actMI_list_sum {κ : Type} (N : Fin d → Nat) (par : κ → Nat) (g : SP d)
+    (l : List (κ → V R d)) : actMI N par g l.sum = (l.map (actMI N par g)).sum := by
+  induction l with
+  | nil =>
+    funext i y n
+    simp [actMI, actV]
+  | cons a l ih =>
+    simp only [List.sum_cons, List.map_cons, ← ih]
+    funext i
+    exact actV_add N g (par i) (a i) (l.sum i)
+
+theorem inv_eq_mul_inv (g h : SP d) : g.inv = h * (g * h).inv := by
+  rw [inv_mul_rev]
+  show g.inv = h.mul (h.inv.mul g.inv)
+  rw [← SP.mul_assoc, SP.mul_inv, SP.one_mul]
+
+/-- the un-scaled sum the wrapper forms on an input of extents `N`:
+`Σ_{g ∈ ops} g⁻¹ · f(N ∘ σ_g, g · x)` -/
+def avgSumN {ι κ : Type} (parX : ι → Nat) (parY : κ → Nat) (ops : List (SP d))
+    (f : (Fin d → Nat) → (ι → V R d) → (κ → V R d)) (N : Fin d → Nat) (x : ι → V R d) : κ → V R d :=
+  (ops.map fun g =>
+    actMI N parY g.inv (f (fun i => N (g.σ i)) (actMI (fun i => N (g.σ i)) parX g x))).sum
+
+/-- **Group averaging of an arbitrary extents-preserving model is equivariant, non-square images
+included**: for EVERY operator list of signed permutations closed under right multiplication by
+`h`, every `f`, every extents `N`:
+`avg(N ∘ σ_h, h·x) = h · avg(N, x)`. -/
+theorem groupAverage_equivariant_nonsquare {ι κ : Type} (parX : ι → Nat) (parY : κ → Nat)
+    (ops : List (SP d)) (h : SP d) (hclosed : (ops.map (· * h)).Perm ops)
+    (f : (Fin d → Nat) → (ι → V R d) → (κ → V R d)) (N : Fin d → Nat) (x : ι → V R d) :
+    avgSumN parX parY ops f (fun i => N (h.σ i)) (actMI (fun i => N (h.σ i)) parX h x)
+      = actMI (fun i => N (h.σ i)) parY h (avgSumN parX parY ops f N x) := by
+  unfold avgSumN
+  rw [actMI_list_sum, List.map_map]
+  -- term of `g` on the left = `h ·` (term of `g * h` on the right)
+  have hterm : ∀ g ∈ ops,
+      actMI (fun i => N (h.σ i)) parY g.inv
+          (f (fun i => N (h.σ (g.σ i)))
+            (actMI (fun i => N (h.σ (g.σ i))) parX g (actMI (fun i => N (h.σ i)) parX h x)))
+        = ((actMI (fun i => N (h.σ i)) parY h ∘ fun k : SP d =>
+            actMI N parY k.inv (f (fun i => N (k.σ i)) (actMI (fun i => N (k.σ i)) parX k x)))
+            ∘ (· * h)) g := by
+    intro g _
+    simp only [Function.comp]
+    rw [actMI_comp (fun i => N (h.σ i)) parX g h x]
+    have hσ : (fun i => N ((g * h).σ i)) = fun i => N (h.σ (g.σ i)) := rfl
+    rw [hσ, actMI_comp N parY h (g * h).inv, ← inv_eq_mul_inv g h]
+  rw [List.map_congr_left hterm, ← List.map_map (g := (actMI (fun i => N (h.σ i)) parY h ∘ _))]
+  exact (hclosed.map _).sum_eq
+
 /-- the transpose the code applies is the matrix of the inverse operator -/
 theorem transpose_is_inverse (g : SP d) : g.inv.mat = Mat.transpose g.mat := SP.mat_inv g
 
